@@ -296,7 +296,7 @@ package storage
 //@ func segmentController.getOptions
 //@   assumed returns the current options (sc.opts) under a lock
 //@   pure
-//@   ensures result == sc.opts
+//@   ensures result == sc.opts && result != nil
 //@ func segmentController.format
 //@   assumed formatting
 //@   pure
